@@ -15,7 +15,7 @@ BOUNDS = {
              "(one shortening onto the other)} placed anywhere by symbolic Int times; device filter CPU/GPU/ALL; long and "
              "short names; default and explicit iteration selection; self-comparison",
     "thorough": "all pairs of 6 words of 1..2 events x 3 device filters x name modes, 2 steps, self-comparison, "
-                "2 ranks in the test trace, one pair of 3-event traces",
+                "2 ranks in the test trace, one pair of 3-event traces, 8 call histories on shared LabeledTrace objects",
 }
 EXPLANATION = ("Real TraceDiff.compare_traces / ops_diff (LabeledTrace.extract_ops, get_ops_summary) on two Trace objects "
                "parsed by the real parser. Iteration membership is decided by symbolic times. Obligations: one row per name "
@@ -45,7 +45,12 @@ def skeletons(tier):
                 _sk("g", "gG"), _sk("g", "gG", short=True), _sk("gG", "g", short=True),
                 _sk("a", "a", nsteps=2, iters="all", nsteps_t=1), _sk("g", "a", nsteps=2, iters="all", nsteps_t=1),
                 _sk("a", "a", nsteps=2, self_=True), _sk("ag", "ag", self_=True), _sk("aA", "a"), _sk("a", "aA"),
-                _sk("a", "a", test_ranks=3, test_sel=[0, 2], same_ranks=True)]
+                _sk("a", "a", test_ranks=3, test_sel=[0, 2], same_ranks=True),
+                # histories of calls on the same LabeledTrace objects (rank and iteration numbers overlap in value)
+                dict(_sk("a", "a", nsteps=1, nsteps_t=2, test_ranks=2, same_ranks=True), id="hist-a|a-r01i2-r0i12", step0=1,
+                     history=[[[0, 1], [2]], [[0], [1, 2]]]),
+                dict(_sk("a", "a", nsteps=1, nsteps_t=2, test_ranks=2, same_ranks=True), id="hist-a|a-r0i1-r1i2-r0i1",
+                     step0=1, history=[[[0], [1]], [[1], [2]], [[0], [1]]])]
     out = []
     words = ["a", "g", "ab", "ag", "gG", "aa", "aA"]
     for wc in words:
@@ -62,18 +67,23 @@ def skeletons(tier):
     out.append(_sk("a", "g", test_ranks=3, test_sel=[0, 2]))
     out.append(_sk("a", "a", test_ranks=3, test_sel=[1, 2]))
     out.append(_sk("abg", "agG", short=True))
+    for w in ("a", "ag"):
+        for h in ([[[0, 1], [2]], [[0], [1, 2]]], [[[0], [1]], [[1], [2]], [[0], [1]]], [[[0], [1, 2]], [[1], [1, 2]]],
+                  [[[1], [2]], [[1, 2], []]][:1] + [[[0, 1], [1, 2]]]):
+            out.append(dict(_sk("a", w, nsteps=1, nsteps_t=2, test_ranks=2, same_ranks=(w != "a")), id=f"hist-a|{w}-" + "-".join(
+                "r" + "".join(map(str, a)) + "i" + "".join(map(str, b)) for a, b in h), step0=1, history=h))
     return out
 
 
-def build(tag, word, nsteps, r=0):
+def build(tag, word, nsteps, r=0, step0=STEP0):
     p = f"{tag}{r}"
     ev = [TG.op("aten::zeros", f"${p}o_ts", f"${p}o_dur")]
     items = [{"name": "aten::zeros", "stream": -1, "ts": f"${p}o_ts", "dur": f"${p}o_dur", "launch": None}]
     steps = []
     for s in range(nsteps):
-        nm = f"ProfilerStep#{STEP0 + s}"
-        ev.append(TG.step(STEP0 + s, f"${p}s{s}_ts", f"${p}s{s}_dur"))
-        d = {"name": nm, "stream": -1, "ts": f"${p}s{s}_ts", "dur": f"${p}s{s}_dur", "k": STEP0 + s, "launch": None}
+        nm = f"ProfilerStep#{step0 + s}"
+        ev.append(TG.step(step0 + s, f"${p}s{s}_ts", f"${p}s{s}_dur"))
+        d = {"name": nm, "stream": -1, "ts": f"${p}s{s}_ts", "dur": f"${p}s{s}_dur", "k": step0 + s, "launch": None}
         steps.append(d)
         items.append(d)
     corr = 50
@@ -92,11 +102,11 @@ def build(tag, word, nsteps, r=0):
     return ev, items, steps
 
 
-def prep(ctx, tag, word, nsteps, nranks=1, same=False):
+def prep(ctx, tag, word, nsteps, nranks=1, same=False, step0=STEP0):
     events, allitems, allsteps = {}, {}, {}
     for r in range(nranks):
         # same=True: every rank carries the same (symbolic) times, so the ranks add no further case splits
-        ev, items, steps = build(tag, word, nsteps, 0 if same else r)
+        ev, items, steps = build(tag, word, nsteps, 0 if same else r, step0)
         events[r] = ctx.val(ev)
         for x in items:
             x["ts"], x["dur"] = ctx.val(x["ts"]), ctx.val(x["dur"])
@@ -137,6 +147,27 @@ def summarize(items_by_rank, ranks, iters, dev, short, shorten):
     return out
 
 
+def verify(ctx, df, want_c, want_t, tag):
+    names = [str(x) for x in ctx.cells(df.index)]
+    ctx.prove(len(set(names)) == len(names), tag + "one-row-per-name", {"names": names})
+    cols = {c: ctx.cells(df[c]) for c in ["Control_counts", "Test_counts", "Control_total_duration",
+                                          "Test_total_duration", "diff_counts", "diff_duration"]}
+    for n in sorted(set(want_c) | set(want_t)):
+        cc, cd = want_c.get(n, (0, 0))
+        tcnt, td = want_t.get(n, (0, 0))
+        if n in names:
+            j = names.index(n)
+            d = {"name": n}
+            ctx.prove(sand(cols["Control_counts"][j] == cc, cols["Test_counts"][j] == tcnt), tag + "counts", d)
+            ctx.prove(sand(cols["Control_total_duration"][j] == cd, cols["Test_total_duration"][j] == td),
+                      tag + "durations", d)
+            ctx.prove(sand(cols["diff_counts"][j] == tcnt - cc, cols["diff_duration"][j] == td - cd), tag + "diffs", d)
+        else:
+            ctx.prove(sand(cc == 0, tcnt == 0), tag + "occurring-name-has-a-row", {"name": n})
+    for n in names:
+        ctx.prove(n in want_c or n in want_t, tag + "no-foreign-rows", {"name": n})
+
+
 def run(ctx):
     sk = ctx.sk
     P = ctx.params
@@ -147,11 +178,12 @@ def run(ctx):
         import hta.trace_diff as TD
         from hta.utils.utils import shorten_name as shorten
     ntr = sk.get("test_ranks", 1)
-    ev_c, it_c, st_c = prep(ctx, "c", sk["wc"], sk["nsteps"])
+    step0 = sk.get("step0", STEP0)
+    ev_c, it_c, st_c = prep(ctx, "c", sk["wc"], sk["nsteps"], step0=step0)
     if P["self"]:
         ev_t, it_t, st_t = ev_c, it_c, st_c
     else:
-        ev_t, it_t, st_t = prep(ctx, "t", sk["wt"], sk.get("nsteps_t", sk["nsteps"]), ntr, sk.get("same_ranks", False))
+        ev_t, it_t, st_t = prep(ctx, "t", sk["wt"], sk.get("nsteps_t", sk["nsteps"]), ntr, sk.get("same_ranks", False), step0=step0)
     if ctx.mode == "sym":
         tc = ctx.open(ev_c, load=False).t
         tt = tc if P["self"] else ctx.open(ev_t, load=False).t
@@ -163,10 +195,21 @@ def run(ctx):
         ctx.outdir = os.path.join(base, "test")
         tt = tc if P["self"] else ctx.open(ev_t, load=False).t
     dev = getattr(TD.DeviceType, P["dev"])
-    all_iters = [STEP0 + s for s in range(sk["nsteps"])]
+    all_iters = [step0 + s for s in range(sk["nsteps"])]
+    if "history" in sk:
+        # several calls on the same LabeledTrace objects: every answer must be the one of its own selection
+        ltc, ltt = TD.LabeledTrace("Control", t=tc), TD.LabeledTrace("Test", t=tt)
+        for n, (tr, ti) in enumerate(sk["history"]):
+            df = TD.TraceDiff.compare_traces(ltc, ltt, device_type=dev, use_short_name=P["short"], control_rank=[0],
+                                             control_iteration=all_iters[:1], test_rank=list(tr), test_iteration=list(ti))
+            verify(ctx, df, summarize(it_c, [0], all_iters[:1], P["dev"], P["short"], shorten),
+                   summarize(it_t, list(tr), list(ti), P["dev"], P["short"], shorten), f"call{n}:")
+        if ctx.mode == "sym":
+            ctx.nontrivial(True)
+        return
     if P["iters"] == "all":
         ci = list(all_iters)
-        ti = [STEP0 + s for s in range(sk.get("nsteps_t", sk["nsteps"]))]
+        ti = [step0 + s for s in range(sk.get("nsteps_t", sk["nsteps"]))]
         kw = {"control_iteration": ci, "test_iteration": ti}
     else:
         ci = ti = all_iters[:1]
